@@ -40,25 +40,61 @@ def judge(run, cases, rows):
                         theorem="correspondence Arb.Model ~ internal/k8s/configuration.go (changes, problems)", found_input=False)
 
 
+CID, DX, DS, DC, DF, CNEV = range(6)
+
+
+def judge_ctl(run, cases, rows):
+    """controller level: the Events really recorded by LoadBalancerController.sync"""
+    for c in cases:
+        if c.get("error") or c["id"] not in rows:
+            continue
+        r = rows[c["id"]]
+        run.cov["traces_validated_against_impl"] += 1
+        run.cov["controller_events"] = run.cov.get("controller_events", 0) + sum(len(st["events"]) for st in c["ctl"])
+        if r[DS] != 0:
+            ev = c["histories"][0]["events"][r[DS] - 1]
+            run.failing({"kind": KIND.get(r[DC], str(r[DC])), "level": "controller-events", "event_kind": ev["spec"]["kind"]}, [c],
+                        "C05: accumulating the Events recorded by the real LoadBalancerController.sync, after step %d of case %d %s; events of that step: %s"
+                        % (r[DS], c["id"], WHAT.get(r[DC], r[DC]), json.dumps(c["ctl"][r[DS] - 1]["events"])[:500]), theorem="Arb.Cases.ctl_run")
+        elif r[DX] != 0:
+            run.failing({"kind": "correspondence", "part": "reports"}, [c],
+                        "the reports the model derives from the change/problem lists (Arb.Cases.reports_of_step_ev, a transcription of processChanges / processProblems / "
+                        "update*StatusAndEvents*) differ from the Events the real controller recorded at step %d of case %d: %s"
+                        % (r[DX], c["id"], json.dumps(c["ctl"][r[DX] - 1]["events"])[:500]),
+                        theorem="correspondence Arb.Cases.reports_of_step_ev ~ internal/k8s/controller.go processChanges/processProblems", found_input=False)
+
+
 def check(run):
-    n = 250 if run.tier == "quick" else 5000
+    n = 200 if run.tier == "quick" else 4000
     run.proof_obligations()
-    cases = arb.generate(run, n)
+    cases = arb.generate(run, n, ctl=True)
     rows = arb.evaluate(run, cases, fn="c05_case")
     judge(run, cases, rows)
+    # controller level on a part of the cases (each case is evaluated a second time)
+    part = cases[: (120 if run.tier == "quick" else 2000)]
+    crow = arb.evaluate(run, part, fn="ctl_case", extra=arb.ctl_term, tag="arbctl")
+    judge_ctl(run, part, crow)
+    run.cov["controller_level_histories"] = len(part)
     for c in cases[:2]:
         run.sample(arb.summarize_case(c))
     run.cov["problems_total"] = sum(len(s["problems"]) for c in cases for s in c["histories"][0]["steps"])
     run.cov["rule"] = ("histories of the arb harness (see C01); per object the most recent report is accumulated from the real change lists (success for the resource, its minions and routes; "
                        "rejection for a delete change with an error or warnings if the object still exists) and problem lists, the way events and status accumulate in the cluster; after every "
                        "event every object the controller knows (exists, own class) is checked: active <=> last report is a success; non-trivial = the history produced at least one problem")
-    run.cov["trusted_base"] = arb.TRUSTED + ["the mapping from changes/problems to reports (processChanges / processProblems / update*StatusAndEvents*) is transcribed in Arb.Cases.reports_of_change, "
-                                             "not exercised against the controller by this check"]
+    run.cov["trusted_base"] = arb.TRUSTED + ["the mapping from changes/problems to reports (processChanges / processProblems / update*StatusAndEvents*) is transcribed in "
+                                             "Arb.Cases.reports_of_step_ev and compared on every step with the Events recorded by the real LoadBalancerController.sync "
+                                             "(production constructor, fake clientsets, harness-filled informer stores, fake NGINX manager)"]
     run.assumptions += ["converted cert-manager challenge Ingresses are excluded (they are reported through a synthesised VirtualServerRoute)"]
 
 
 def replay(run, path):
-    cases = arb.replay_cases(run, path)
+    cases = arb.replay_cases(run, path, ctl=True)
+    crow = arb.evaluate(run, cases, fn="ctl_case", extra=arb.ctl_term, tag="arbctl")
+    for c in cases:
+        if not c.get("error") and c["id"] in crow:
+            r = crow[c["id"]]
+            print("replay case %d (controller level): reports differ from Events first at step %d; first untruthful step %d (code %d); foreign object reported at step %d" % (c["id"], r[DX], r[DS], r[DC], r[DF]))
+    judge_ctl(run, cases, crow)
     rows = arb.evaluate(run, cases, fn="c05_case")
     for c in cases:
         if not c.get("error"):
